@@ -167,8 +167,15 @@ fn parse_image(c: &ParseCase) -> Vec<u8> {
     put32(&mut img, 0, c.kind);
     put32(&mut img, 4, (fx + c.cut) as u32);
     if c.kind == 3 {
-        put32(&mut img, 8, 0x1111_1111);
-        put32(&mut img, 12, 0x2222_2222);
+        // the module range: ascending as constructors require it, or (every fourth
+        // image) as crafted bytes can have it: empty or descending
+        let (s, e) = match c.cut % 4 {
+            1 => (0x2222_2222, 0x1111_1111),
+            2 if c.content.0.len() % 2 == 0 => (0x3333_3333, 0x3333_3333),
+            _ => (0x1111_1111, 0x2222_2222),
+        };
+        put32(&mut img, 8, s);
+        put32(&mut img, 12, e);
     }
     img.extend_from_slice(&c.content.0);
     mb2_model::encode::pad8(&mut img, c.pad);
